@@ -9,3 +9,5 @@ import WhatIs.Props.C13
 import WhatIs.Props.C10
 import WhatIs.Props.C18
 import WhatIs.Props.C06
+import WhatIs.Props.C04
+import WhatIs.Props.C09
